@@ -55,3 +55,6 @@ func verifCollLastCasAt(db *sql.DB, snap int, id int64) int64 { panic("intrinsic
 func verifPrefer(c bool) { panic("intrinsic") } // soft preference for replay-friendly models
 
 func verifIfI64(c bool, a, b int64) int64 { panic("intrinsic") }
+
+func verifSameEncoded(a, b []byte) bool { panic("intrinsic") } // DCP value+xattrs encodings equal up to xattr order
+func verifCount(cs ...bool) int         { panic("intrinsic") }
